@@ -541,9 +541,8 @@ func runCheck(spec *propSpec, tier string) int {
 func writeEvidence(spec *propSpec, tier string, seed int, m mergedStats, violations int, wall float64, known []string) {
 	samples := make([]interface{}, 0, len(m.Samples))
 	for _, s := range m.Samples {
-		var v interface{}
-		if json.Unmarshal(s, &v) == nil {
-			samples = append(samples, v)
+		if json.Valid(s) {
+			samples = append(samples, s) // verbatim (keeps 64-bit integers exact)
 		}
 	}
 	cov := map[string]interface{}{
